@@ -207,6 +207,60 @@ func scenarioHandshake(w *world) {
 				})
 			}
 		}
+		// ... nothing from the peer, that is: stray packets that a client must discard may still arrive (an INIT-ACK
+		// for another SCTP port pair, with the right or a foreign verification tag; noise); they must
+		// not keep the call from failing on the T1-init schedule
+		nStray := pick(tp, 0, 0, 1, 2, 4)
+		strayAt := make([]time.Duration, nStray)
+		strayKind := make([]int, nStray)
+		strayRnd := make([]uint32, nStray)
+		for i := range strayAt {
+			strayAt[i] = time.Duration(tp.intn(6000)) * time.Millisecond
+			strayKind[i] = tp.intn(4)
+			strayRnd[i] = uint32(tp.intn(1 << 30))
+		}
+		if nStray > 0 {
+			w.sim.spawnClient("stray", "adv", func() {
+				last := time.Duration(0)
+				for i := range strayAt {
+					if strayAt[i] > last {
+						h := vsimBlocking("client.sleep")
+						time.Sleep(strayAt[i] - last)
+						vsimWoke(h)
+						last = strayAt[i]
+					}
+					if w.tornDown || w.stopped() {
+						return
+					}
+					for side := 0; side < 2; side++ {
+						if cfg.Side[side].Role != "client" || len(w.pkts[side]) == 0 || w.eps[side].conn == nil {
+							continue
+						}
+						ini := w.pkts[side][0]
+						if len(ini.chunks) == 0 || ini.chunks[0].typ != wtINIT {
+							continue
+						}
+						tag := ini.chunks[0].initTag
+						initv := append(wU32(strayRnd[i]|1, 1<<20, 0x000a000a, strayRnd[i]), wParamTLV(7, []byte{1, 2, 3, 4, 5, 6, 7, 8})...)
+						var raw []byte
+						switch strayKind[i] {
+						case 0, 1:
+							// answers the INIT, but for another port pair
+							raw = wNewPacket(ini.dstPort+1, ini.srcPort, tag).chunk(wtINITACK, 0, initv).bytes(true)
+						case 2:
+							// (a foreign verification tag alone is not a reason for this library to discard a packet, see
+							// §11.6; the stray carries a foreign port pair as well)
+							raw = wNewPacket(ini.dstPort, ini.srcPort+7, tag^0x5a5a5a5a).chunk(wtINITACK, 0, initv).bytes(true)
+						default:
+							raw = []byte{byte(strayRnd[i]), 1, 2, 3}
+						}
+						w.probe("silent-peer-stray-packet")
+						w.sim.trace.addString("stray")
+						w.net.inject(w.now(), w.eps[side].conn, raw)
+					}
+				}
+			})
+		}
 		budget := t1Budget(rmax)
 		w.connect(budget + 10*time.Second)
 		if w.stopped() {
